@@ -139,6 +139,14 @@ Proof.
   rewrite Z.mul_assoc, Z.even_mul, (Z.even_mul x 2). cbn. rewrite orb_true_r. reflexivity.
 Qed.
 
+Lemma s128_small x k : Z.abs x < 2 ^ k * P62 -> 2 ^ k <= 32 -> s128 x = x.
+Proof.
+  intros H K. apply s128_id. assert (2 ^ k * P62 <= 32 * P62) by (apply Z.mul_le_mono_nonneg_r; pfacts; lia).
+  pfacts; lia.
+Qed.
+Lemma s64_small x b : Z.abs x <= b -> b <= P62 -> s64 x = x.
+Proof. intros H K. apply s64_id. pfacts; lia. Qed.
+
 Lemma jump_loop_inv f0 g0 K : 0 <= f0 < P62 -> 0 <= g0 < P62 -> K <= P62 ->
   forall fuel steps delta f g t00 t01 t10 t11,
   1 <= steps <= 62 ->
@@ -226,7 +234,7 @@ Proof.
       assert (E1d : s64 (1 - delta2) = 1 - delta2) by (apply s64_id; clear - Hd2 Hd2K HK Hzlt Hz; pfacts; lia).
       rewrite E1d.
       set (k := Z.min (Z.min st (1 - delta2)) 5).
-      assert (Hk : 1 <= k <= 5 /\ k <= st) by (unfold k, st; lia).
+      assert (Hk : 1 <= k <= 5 /\ k <= st) by (clear - Hd2 Hzlt; unfold k, st; lia).
       destruct (w_clears f2 g2 k Of2 ltac:(lia)) as (Hw & Dw). cbv zeta in Hw, Dw.
       set (w := Z.land (wmul (u64 g2) (wxor (wmul (u64 f2) 3) 28)) (2 ^ k - 1)) in *.
       assert (Pk : 2 ^ k <= 32) by (change 32 with (2 ^ 5); apply Z.pow_le_mono_r; lia).
@@ -234,22 +242,21 @@ Proof.
       pose proof (JI_wstep _ _ _ k w _ _ _ _ _ _ Hs' Hk0 Hw J2) as J3.
       assert (Psk : 2 ^ (s' + k) <= P62) by (rewrite P62_pow; apply Z.pow_le_mono_r; unfold s'; lia).
       destruct (JI_bounds _ _ _ _ _ _ _ _ _ _ Hs' Hk0 Hf0 Hg0 J3) as (_ & Bg3 & _ & _ & W10 & W11).
-      assert (Eg3 : s128 (g2 + w * f2) = g2 + w * f2).
-      { apply s128_id. assert (2 ^ k * P62 <= 32 * P62) by (apply Z.mul_le_mono_nonneg_r; pfacts; lia).
-        pfacts; lia. }
-      assert (E10 : s64 (v00 * w + v10) = v00 * w + v10) by (apply s64_id; pfacts; lia).
-      assert (E11 : s64 (v01 * w + v11) = v01 * w + v11) by (apply s64_id; pfacts; lia).
+      assert (Eg3 : s128 (g2 + w * f2) = g2 + w * f2) by (apply (s128_small _ k); assumption).
+      assert (E10 : s64 (v00 * w + v10) = v00 * w + v10) by (apply (s64_small _ (2 ^ (s' + k))); assumption).
+      assert (E11 : s64 (v01 * w + v11) = v01 * w + v11) by (apply (s64_small _ (2 ^ (s' + k))); assumption).
       rewrite Eg3, E10, E11.
       (* next iteration *)
-      assert (Hkz : k <= ctz_upto (Z.to_nat st) (g2 + w * f2)) by (apply ctz_upto_ge; [lia | assumption]).
-      pose proof (ctz_upto_range (Z.to_nat st) (g2 + w * f2)) as Hz'. rewrite Z2Nat.id in Hz' by lia.
+      assert (Hkz : k <= ctz_upto (Z.to_nat st) (g2 + w * f2)) by (apply ctz_upto_ge; [clear - Hk Hzlt; unfold st in *; lia | assumption]).
+      pose proof (ctz_upto_range (Z.to_nat st) (g2 + w * f2)) as Hz'. rewrite Z2Nat.id in Hz' by (clear - Hzlt; unfold st; lia).
       apply (IH st delta2 f2 (g2 + w * f2) v00 v01 (v00 * w + v10) (v01 * w + v11)).
-      * unfold st. lia.
+      * clear - Hzlt Hst Hz. unfold st. lia.
       * fold s'. destruct J3 as (G0 & G1 & R0 & R1 & D). unfold JI. repeat split; try assumption.
-        eapply Z.le_trans; [exact R1|]. apply Z.pow_le_mono_r; lia.
+        eapply Z.le_trans; [exact R1|]. apply Z.pow_le_mono_r; [lia|]. clear - Hkz. lia.
       * left. assumption.
       * assumption.
-      * destruct (Z.eqb_spec (ctz_upto (Z.to_nat st) (g2 + w * f2)) 0) as [E0|E0]; [lia|].
+      * clear - Hfuel Hkz Hk Hz Hzlt Hz'.
+        destruct (Z.eqb_spec (ctz_upto (Z.to_nat st) (g2 + w * f2)) 0) as [E0|E0]; [lia|].
         rewrite Nat2Z.inj_succ in Hfuel. unfold st.
         destruct (Z.eqb_spec z 0); lia.
 Qed.
@@ -263,8 +270,7 @@ Proof.
   pose proof (jump_loop_inv f0 g0 (Z.abs delta + 62) Hf Hg Hd 63 62 delta f0 g0 1 0 0 1 ltac:(lia)) as L.
   assert (J : JI f0 g0 (62 - 62) (ctz_upto (Z.to_nat 62) g0) f0 g0 1 0 0 1).
   { pose proof (ctz_upto_range (Z.to_nat 62) g0) as R.
-    unfold JI. change (62 - 62) with 0. rewrite Z.add_0_l. change (2 ^ 0) with 1. repeat split; try lia.
-    assert (0 < 2 ^ ctz_upto (Z.to_nat 62) g0) by (apply pow2_pos; lia). cbn [Z.abs]. lia. }
+    unfold JI. change (62 - 62) with 0. rewrite Z.add_0_l. change (2 ^ 0) with 1. assert (0 < 2 ^ ctz_upto (Z.to_nat 62) g0) by (apply pow2_pos; lia). repeat split; cbn [Z.abs]; lia. }
   specialize (L J Ho ltac:(lia)).
   assert (Fu : 62 + (if ctz_upto (Z.to_nat 62) g0 =? 0 then 1 else 0) <= Z.of_nat 63) by (destruct (_ =? 0); lia).
   specialize (L Fu).
@@ -273,9 +279,14 @@ Proof.
 Qed.
 
 (** g0 = 0: the jump is the identity on (f, g) whatever f0 is (used for gcd(x, 0), gcd(0, 0) and after convergence) *)
+Lemma jump_loop_g0 fuel steps delta f t00 t01 t10 t11 : 0 <= steps ->
+  jump_loop (S fuel) steps delta f 0 (t00, t01, t10, t11) =
+  (s64 (delta + steps), (s64 (t00 * 2 ^ steps), s64 (t01 * 2 ^ steps), t10, t11)).
+Proof.
+  intros Hs. cbn [jump_loop]. rewrite ctz_upto_zero, Z2Nat.id, Z.sub_diag by assumption. reflexivity.
+Qed.
 Lemma jump_g0 f0 delta : - P62 <= delta <= P62 -> jump f0 0 delta = (delta + 62, (P62, 0, 0, 1)).
 Proof.
-  intros Hd. unfold jump. cbn [jump_loop].
-  change (ctz_upto (Z.to_nat 62) 0) with 62. change (62 - 62) with 0. cbn [Z.eqb].
+  intros Hd. unfold jump. rewrite jump_loop_g0 by lia.
   rewrite s64_id by (pfacts; lia). reflexivity.
 Qed.
